@@ -392,6 +392,36 @@ def tower_fit(ctx, cov):
     cov["tower_linear_fit_depth_30_60_120"] = fit
 
 
+def many_methods(ctx, cov):
+    """hundreds of method bodies in ONE file (whatever is kept per body - counters, generations, tables - is sized for small
+    files): a long body, then short ones, then long ones again at the distances where an 8- or 16-bit counter wraps;
+    all bodies distinct, so a memo entry that survives from an earlier body shows in the tree.  The implementation alone,
+    judged by the property's oracle on the file (the body found in the tree = the body parsed alone with memoisation off)."""
+    hb = diff.Engines.harness()
+    cs = []
+    for n, period in ((258, 256), (300, 255), (514, 256), (520, 128)) + (() if ctx.quick else ((1030, 256), (1030, 512))):
+        parts = ["class aMany (aObject)\n"]
+        for i in range(n):
+            if i % period == 0:
+                body = "r%d = Compute%d(1, 2, 3, 4, 5, 6, 7, %d)\n  total = r%d + Scale(%d, b[c]) * (1 + %d)" % (i, i, i, i, i, i)
+            else:
+                body = "y%d = %d" % (i, i)
+            parts[-1] += "proc M%d\n  " % i
+            parts.append(body)
+            parts.append("\nendproc\n")
+        cs.append("F:" + "/".join(pc.enc(x) for x in parts))
+    outs = core.run_lines(hb, "memo", cs, shards=min(core.NCPU, len(cs)))
+    for c, o in zip(cs, outs):
+        bad = oracle(c, o)
+        if bad:
+            path = core.write_replay(ctx.pid, ctx.seed, {"engine": "memo", "case": c[:200000], "case_readable": describe(c)[:400],
+                                                       "observed": o[:600], "expected": bad})
+            v = core.Violation(bad, path, True)
+            v.coverage = cov
+            raise v
+    cov["many_method_files_implementation_only"] = len(cs)
+
+
 def long_bodies(ctx, cov):
     """thousands of memoised positions in ONE body (tables, counters and caps sized for small inputs): the implementation
     alone, judged by the property's oracle (memo on = memo off, every evaluation stored once); the extracted model is
@@ -448,6 +478,7 @@ def correspondence(ctx, broken_obligations=()):
     miss_pass(ctx, cases, pre)
     tower_fit(ctx, pre)
     long_bodies(ctx, pre)
+    many_methods(ctx, pre)
     try:
         cov = diff.differential(ctx, "memo", cases, oracle=oracle, shrinker=shrinker, nontrivial=nontrivial, describe=describe)
     except core.Violation as v:
